@@ -59,6 +59,7 @@ def build():
     U.stub('ghost_sqrt', 'double ghost_sqrt(double x)')
     bk = ClassInfo('Book'); bk.src = U.src(BK_H); U.tr.add_class(bk)
     U.pull(BK_C, 'Book::getWeight', as_static=True, rules=[(r'::sqrt\(', 'ghost_sqrt(', 2)])
+    U.raw('int ghost_rnd;   /* the random draw of the selection */\n')
     U.raw('int ghost_pick; int ghost_j, ghost_kj; struct MoveList ghost_legal;   /* the legal move list handed out by the MoveGen stub */\n')
     U.passthrough('ghost_pick', 'ghost_j', 'ghost_kj', 'Move_equals')
     U.fragment(BK_C, 'Book_getBookMove_select', r'MoveList legalMoves;\s*MoveGen::pseudoLegalMoves\(pos, legalMoves\);', r'std::string\s*Book::getAllBookMoves',
@@ -78,6 +79,11 @@ _Bool ghost_assume_det;   /* set by the selection harness only: determinism of g
 #define LEGAL_MAX 16   /* data bound of the selection proof: at most 16 legal moves are compared (list positions 0..15) */
 #define IS_WHITE(p) ((p) >= Piece_WKING && (p) <= Piece_WPAWN)
 '''
+def _cum(k):
+    # cumulative weight of the entries 0..k (k = -1: 0); weights are the (deterministic, assumed) values of Book::getWeight
+    return ' + '.join(['0'] + ['__CPROVER_uninterpreted_weight(bookMoves->data[%d].count, pgBook != 0)' % i for i in range(k + 1)])
+
+
 CONTRACTS = {
     # every 16-bit code decodes to squares on the board and a promotion piece of the mover (or none)
     'PolyglotBook_getMove': {
@@ -114,7 +120,7 @@ CONTRACTS = {
     'ghost_legal_moves': {  # assumed: MoveGen::pseudoLegalMoves + removeIllegal (C01): fills the list with the legal moves
         'requires': ['__CPROVER_is_fresh(legalMoves, sizeof(*legalMoves))'],
         'assigns': ['__CPROVER_object_whole(legalMoves)'], 'ensures': ['0 <= legalMoves->size && legalMoves->size <= LEGAL_MAX', 'legalMoves->size == ghost_legal.size', 'MOVES_SAME(legalMoves, &ghost_legal)']},
-    'ghost_nextInt': {'requires': ['n > 0'], 'assigns': [], 'ensures': ['0 <= __CPROVER_return_value && __CPROVER_return_value < n']},   # assumed: Random::nextInt
+    'ghost_nextInt': {'requires': ['n > 0'], 'assigns': ['ghost_rnd'], 'ensures': ['0 <= __CPROVER_return_value && __CPROVER_return_value < n', 'ghost_rnd == __CPROVER_return_value']},   # assumed: Random::nextInt (the draw is recorded in ghost_rnd)
     'ghost_sqrt': {'requires': ['x >= 0.0'], 'assigns': [], 'ensures': ['__CPROVER_return_value >= 0.0 && __CPROVER_return_value <= 1.0e9 && (x <= 1.0e15 ==> __CPROVER_return_value * __CPROVER_return_value <= x + 1.0)']},   # assumed: ::sqrt (non-negative, square not above x+1)
     'Book_getWeight': {
         'requires': ['0 <= count && count <= 65535'], 'assigns': [],
@@ -126,11 +132,14 @@ CONTRACTS = {
                      '1 <= bookMoves->size && bookMoves->size <= 4', '__CPROVER_is_fresh(bookMoves->data, 4 * sizeof(struct BookEntry))',
                      'out->from_ == 0 && out->to_ == 0 && out->promoteTo_ == 0 && out->score_ == 0', 'ghost_pick == -1',
                      '0 <= bookMoves->data[0].count && bookMoves->data[0].count <= 65535', '0 <= bookMoves->data[1].count && bookMoves->data[1].count <= 65535', '0 <= bookMoves->data[2].count && bookMoves->data[2].count <= 65535', '0 <= bookMoves->data[3].count && bookMoves->data[3].count <= 65535'],
-        'assigns': ['*out', 'ghost_pick', 'ghost_kj'],
+        'assigns': ['*out', 'ghost_pick', 'ghost_kj', 'ghost_rnd'],
         # the result is the empty move or one of the stored moves (ghost_pick), and in that case every stored move is in the legal list
         'ensures': ['(out->from_ == 0 && out->to_ == 0 && out->promoteTo_ == 0 && ghost_pick == -1) || (0 <= ghost_pick && ghost_pick < bookMoves->size && out->from_ == bookMoves->data[ghost_pick].move.from_ && out->to_ == bookMoves->data[ghost_pick].move.to_ && out->promoteTo_ == bookMoves->data[ghost_pick].move.promoteTo_)',
                     # a returned move is a member of the legal move list (ghost_j arbitrary: for the picked entry the witness index was recorded)
-                    '(ghost_pick >= 0 && ghost_pick == ghost_j) ==> (0 <= ghost_kj && ghost_kj < ghost_legal.size && ghost_legal.buf[ghost_kj].from_ == out->from_ && ghost_legal.buf[ghost_kj].to_ == out->to_ && ghost_legal.buf[ghost_kj].promoteTo_ == out->promoteTo_)'],
+                    '(ghost_pick >= 0 && ghost_pick == ghost_j) ==> (0 <= ghost_kj && ghost_kj < ghost_legal.size && ghost_legal.buf[ghost_kj].from_ == out->from_ && ghost_legal.buf[ghost_kj].to_ == out->to_ && ghost_legal.buf[ghost_kj].promoteTo_ == out->promoteTo_)']
+                   # the entry returned is the one whose weight window contains the random draw: windows are [cum(i-1), cum(i)), so every entry of
+                   # positive weight is returned for some draw and an entry of weight 0 never is
+                   + ['ghost_pick == %d ==> (%s <= ghost_rnd && ghost_rnd < %s)' % (i, _cum(i - 1), _cum(i)) for i in range(4)],
         'ghost_at': [(r'\(\*out\) = \(\*be\)\.move;', 'ghost_pick = be_i;'), (r'contains = true;', 'if (be_i == ghost_j) ghost_kj = mi;')],
     },
 }
@@ -141,7 +150,7 @@ HARNESS = r'''
 #define CANARY_POINT
 #endif
 int nondet_int(void);
-static void hv(void) { __CPROVER_havoc_object(&ghost_legal); ghost_numEntries = nondet_int(); ghost_pick = nondet_int(); ghost_j = nondet_int(); ghost_kj = nondet_int(); }
+static void hv(void) { __CPROVER_havoc_object(&ghost_legal); ghost_numEntries = nondet_int(); ghost_pick = nondet_int(); ghost_j = nondet_int(); ghost_kj = nondet_int(); ghost_rnd = nondet_int(); }
 void h_getMove(void) { struct Position* p; U16 mv; hv(); PolyglotBook_getMove(p, mv); CANARY_POINT; }
 void h_serialize(void) { U64 h; U16 m, w; struct PGEntry* e; hv(); PolyglotBook_serialize(h, m, w, e); CANARY_POINT; }
 void h_deSerialize(void) { struct PGEntry* e; U64* h; U16 *m, *w; hv(); PolyglotBook_deSerialize(e, h, m, w); CANARY_POINT; }
